@@ -5,7 +5,7 @@ RULE = ("direction A: TLC enumerates spec/FamC18.tla: one argument of each of 12
         "dollar, quote, backslash, newline, tilde, repeated/leading blanks, ...) as literal / variable / computed value, as a statement and captured, at top level and in a "
         "function; every ordered pair of classes; the class in every position of 3..5 arguments; pipelines of 1..3 commands x statement/captured x 6 exit statuses of the "
         "last or first stage x top/function; sequences of calls. The callee is a probe that logs argv and stdin; TLC validates the recorded invocation log, stdout, "
-        "captured output and status against TshDyn!ApplyAppCall. Distinct = distinct source text.")
+        "captured output and status against TshDyn!ApplyAppCall. Direction B: seeded random programs mixing command calls (5 probe names, 22 argument words that need no quoting other than for blanks, variables, computed values, earlier captures as arguments) with file operations, loops, branches and functions. Distinct = distinct source text.")
 ASSUME = ["the probe program (the harness binary under another name) reports its argv and stdin faithfully", "only the Bash target is executed; the Batch `_ach` path is covered structurally by C16"]
 
 
@@ -13,5 +13,9 @@ def run(ctx):
     fam = ctx.tlc_family("FamC18", constants={"Tier": '"%s"' % ctx.tier}, timeout=3000)
     ctx.exhaustive["FamC18"] = True
     failures = progflow.judge(ctx, fam, "fam")
+    # direction B: random programs (harness/genworld.go): chains of 1-3 probes with 0-3 arguments (literals, variables, itoa, concatenations, earlier captures),
+    # statements and captures mixed with file operations, in loops, branches and functions
+    gen = progflow.generate(ctx, "cmds", 120 if ctx.tier == "quick" else 3000)
+    failures += progflow.judge(ctx, gen, "gen")
     progflow.report(ctx, failures)
     return ctx.finish(rule=RULE, assumptions=ASSUME)
